@@ -540,18 +540,33 @@ def rule_type7_salt_range(model, rep):
     fn = model.func(H7, "cisco_type7._norm_salt")
     unit = model.unit(H7)
     s = site(H7, "cisco_type7._norm_salt")
-    accept = [n for n in walk_no_nested(fn) if isinstance(n, ast.If) and isinstance(n.test, ast.Compare) and len(n.test.ops) == 2 and n.body and isinstance(n.body[-1], ast.Return)
-              and ast.unparse(n.body[-1].value) == "salt"]
-    if len(accept) != 1:
-        rep.undecided(R, s, "the range test `0 <= salt <= <max>` was not found")
+    # every comparison of `salt` in the function, split into binary relations `salt OP other` (whatever the shape of the test: a chained
+    # acceptance test, or a negated rejection test)
+    FLIP = {ast.Lt: ast.Gt, ast.Gt: ast.Lt, ast.LtE: ast.GtE, ast.GtE: ast.LtE, ast.Eq: ast.Eq, ast.NotEq: ast.NotEq}
+    rels = []
+    for c in walk_no_nested(fn):
+        if not isinstance(c, ast.Compare):
+            continue
+        terms = [c.left] + list(c.comparators)
+        for l, o, r in zip(terms, c.ops, terms[1:]):
+            if isinstance(l, ast.Name) and l.id == "salt":
+                rels.append((type(o), ast.unparse(r)))
+            elif isinstance(r, ast.Name) and r.id == "salt" and type(o) in FLIP:
+                rels.append((FLIP[type(o)], ast.unparse(l)))
+    upper = [(o, t) for o, t in rels if t not in ("0", "cls.min_salt_value")]
+    lower = [(o, t) for o, t in rels if t in ("0", "cls.min_salt_value")]
+    if not upper or not lower:
+        rep.undecided(R, s, f"no range test on `salt` found (relations: {[(o.__name__, t) for o, t in rels]})")
         return
-    t = accept[0].test
-    lo, mid, hi = ast.unparse(t.left), ast.unparse(t.comparators[0]), ast.unparse(t.comparators[1])
-    ok = lo in ("0", "cls.min_salt_value") and mid == "salt" and hi == "cls.max_salt_value" and all(isinstance(o, ast.LtE) for o in t.ops)
-    rep.check(ok, R, s, ast.unparse(t), "a salt is accepted exactly when 0 <= salt <= cls.max_salt_value",
+    bad_u = [(o.__name__, t) for o, t in upper if t != "cls.max_salt_value" or o not in (ast.LtE, ast.Gt)]
+    bad_l = [(o.__name__, t) for o, t in lower if o not in (ast.GtE, ast.Lt)]
+    rep.check(not bad_u and not bad_l, R, s, "; ".join(f"salt {o.__name__} {t}" for o, t in rels), "a salt is accepted exactly when 0 <= salt <= cls.max_salt_value (tests may be written as acceptance or as rejection)",
               witness="cisco_type7.using(salt=53) is accepted and produces '53...' strings outside the format's 0..52 range; relaxed=True neither clamps nor warns")
     clamp = [ast.unparse(r.value) for r in walk_no_nested(fn) if isinstance(r, ast.Return) and r.value is not None and ast.unparse(r.value) != "salt"]
-    rep.check(clamp == ["0 if salt < 0 else cls.max_salt_value"], R, s + " clamp", "; ".join(clamp), "relaxed mode clamps to the same bounds")
+    flat = set()
+    for t in clamp:
+        flat |= {x.strip() for x in t.replace(" if salt < 0 else ", "|").split("|")}
+    rep.check(flat == {"0", "cls.max_salt_value"}, R, s + " clamp", "; ".join(clamp), "relaxed mode clamps to the same bounds (0 and cls.max_salt_value)")
     mx = model.fold(unit, ast.Attribute(value=ast.Name(id="cisco_type7", ctx=ast.Load()), attr="max_salt_value", ctx=ast.Load()))
     key = model.fold(unit, ast.Attribute(value=ast.Name(id="cisco_type7", ctx=ast.Load()), attr="_key", ctx=ast.Load()))
     rep.check(isinstance(mx, int) and isinstance(key, str) and mx == len(key) - 1, R, site(H7, "cisco_type7.max_salt_value"), f"max_salt_value={mx!r}, len(_key)={len(key) if isinstance(key, str) else '?'}",
